@@ -134,3 +134,62 @@ pub fn post_chunked(path: &str, body: &[u8], sizes: &[usize]) -> Vec<u8> {
     v.extend_from_slice(&chunked(body, sizes, SizeSyntax::Lower));
     v
 }
+
+
+// ------------------------------------------------------------------------- histories
+// A "history" is a run of plain exchanges (GET /pre<i>, answered) on the connection before
+// the conversation proper: decisions must not depend on how much a connection has carried.
+
+pub fn history(h: usize) -> Vec<u8> {
+    let mut v = Vec::new();
+    for i in 0..h {
+        v.extend_from_slice(&get(&format!("/pre{}", i)));
+    }
+    v
+}
+
+/// Splits a byte stream that starts with `history(h)` into [history, rest] (two segments, so
+/// that the runner lets the history be answered before the rest is sent); a stream without
+/// such a prefix stays one segment.
+pub fn split_history(bytes: &[u8]) -> Vec<Vec<u8>> {
+    let mut p = 0;
+    let mut i = 0;
+    loop {
+        let g = get(&format!("/pre{}", i));
+        if bytes[p..].starts_with(&g) {
+            p += g.len();
+            i += 1;
+        } else {
+            break;
+        }
+    }
+    if p == 0 || p == bytes.len() {
+        vec![bytes.to_vec()]
+    } else {
+        vec![bytes[..p].to_vec(), bytes[p..].to_vec()]
+    }
+}
+
+/// history lengths: around the ceilings a maintainer might introduce
+pub fn history_lengths(thorough: bool) -> Vec<usize> {
+    if thorough {
+        vec![63, 64, 65, 99, 100, 101, 127, 128, 129, 255, 256, 257, 999, 1000, 1001, 1023, 1024, 1025, 4097]
+    } else {
+        vec![64, 100, 1024]
+    }
+}
+
+/// number of history exchanges a stream starts with
+pub fn history_len(bytes: &[u8]) -> usize {
+    let mut p = 0;
+    let mut i = 0;
+    loop {
+        let g = get(&format!("/pre{}", i));
+        if bytes[p..].starts_with(&g) {
+            p += g.len();
+            i += 1;
+        } else {
+            return i;
+        }
+    }
+}
